@@ -90,7 +90,9 @@ AllEntries == <<
   E("rtp_transport", "endpoint", <<"pre", "est", "closing">>, RtpTpls \cup RtcpTpls),
   E("pc_sdp", "endpoint", Conn, SdpTpls \ {"sdp.t38"}),
   E("pc_candidate", "endpoint", Conn, {"sdp.candidate"}),
-  E("udptl", "endpoint", <<"est">>, {"udptl.packet"})
+  E("udptl", "endpoint", <<"est">>, {"udptl.packet"}),
+  \* a PeerConnection in plain RTP mode: the whole media receive pipeline behind its RTP port
+  E("pc_rtp", "endpoint", <<"pre", "est", "closing">>, RtpTpls \cup RtcpTpls \cup {"stun.binding_req"})
 >>
 
 EntryNames == {AllEntries[i].name : i \in 1..Len(AllEntries)}
